@@ -74,6 +74,7 @@ fn alphabet(old: &Value) -> Vec<(Value, bool)> {
             (json!(7u64), true),
             (json!(1000u64), true),
             (json!(u32::MAX as u64 + 17), true),
+            (json!(null), false),
         ],
         Value::Number(_) => vec![
             (json!(0.0), true),
@@ -84,6 +85,7 @@ fn alphabet(old: &Value) -> Vec<(Value, bool)> {
             (json!(1.23456789012345e15), true),
             (json!(5e-324), true),
             (json!(-2.5), true),
+            (json!(null), false),
         ],
         Value::Null => vec![(json!(2.5), false), (json!(0.1), false), (json!(null), true)],
         Value::String(_) => {
@@ -95,6 +97,8 @@ fn alphabet(old: &Value) -> Vec<(Value, bool)> {
     }
 }
 
+/// field names of the Debug rendering whose value is not `None` (a `None` may legitimately be
+/// left out of the JSON; whether it comes back as `None` is decided by the round-trip oracles)
 fn debug_keys<S: std::fmt::Debug>(s: &S) -> BTreeSet<String> {
     let txt = format!("{s:#?}");
     let mut out = BTreeSet::new();
@@ -102,12 +106,23 @@ fn debug_keys<S: std::fmt::Debug>(s: &S) -> BTreeSet<String> {
         let l = line.trim();
         if let Some(i) = l.find(':') {
             let k = &l[..i];
-            if !k.is_empty() && k.chars().all(|c| c.is_ascii_alphanumeric() || c == '_') {
+            let val = l[i + 1..].trim().trim_end_matches(',');
+            if !k.is_empty() && k.chars().all(|c| c.is_ascii_alphanumeric() || c == '_') && val != "None" {
                 out.insert(k.to_string());
             }
         }
     }
     out
+}
+
+/// JSON with null-valued object entries removed (an absent key and an explicit null are the same
+/// statement about an optional field)
+fn strip_nulls(v: &Value) -> Value {
+    match v {
+        Value::Object(m) => Value::Object(m.iter().filter(|(_, x)| !x.is_null()).map(|(k, x)| (k.clone(), strip_nulls(x))).collect()),
+        Value::Array(a) => Value::Array(a.iter().map(strip_nulls).collect()),
+        x => x.clone(),
+    }
 }
 
 fn chain_fingerprint<S: Settings>(s: &S, n: usize) -> String {
@@ -181,7 +196,7 @@ fn check_value<S: Settings + std::fmt::Debug>(
             return;
         }
     };
-    if &v1 != modified {
+    if strip_nulls(&v1) != strip_nulls(modified) {
         p.violation(
             format!("C19/field-changed-by-round-trip/{key}"),
             format!("serialised {v1} from {modified}"),
